@@ -25,14 +25,27 @@
    lists; a direct hand-off to a waiting receiver is "append, then the receiver's step".
    Go's channel/WaitGroup/context-deadline semantics are modelled, not verified.
 
+   Parent context (pool_option.go WithContextBuilder): every dispatcher goroutine gets a parent
+   context and runTaskOnce derives ctx1 = context.WithTimeout(parent, T) from it.  The model has
+   ONE parent shared by all dispatchers; the input event [AnParentCancel] cancels it ([an_pc] =
+   the instant).  The instant at which a ctx1 created at c is done is then [an_dl s (c + T)] =
+   min(c + T, cancel instant): after the cancellation every attempt's context is done at creation,
+   so the dispatcher's select can take the ctx1.Done() branch as soon as it looks (AnDecide
+   viaDone=false) or doneChan if the callback published first (tie order is the [viaDone] input
+   as for ordinary deadline ties); the callback's own ctx1.Done() test sees it done ([saw]); an
+   honouring handler returns (nil, context.Canceled) at once.  The deadline [d] stored with a
+   queued callback / running handler is this EFFECTIVE done-instant of its ctx1 (AnParentCancel
+   lowers it to the cancel instant).  The code stores context.DeadlineExceeded in both places
+   whatever ctx1.Err() is, so a decided pair never carries AnCanceled.
+
    Definitions only; proofs are in proofs/AntsProofs.v. *)
 From Got Require Import Base.
 Local Open Scope Z_scope.
 
 Inductive an_publish := AnSharedFields | AnAttemptChannel.
 
-(* errors: nil, a handler error, context.DeadlineExceeded, errDiscard *)
-Inductive an_err := AnNil | AnE (id : Z) | AnDeadline | AnDiscard.
+(* errors: nil, a handler error, context.DeadlineExceeded, errDiscard, context.Canceled *)
+Inductive an_err := AnNil | AnE (id : Z) | AnDeadline | AnDiscard | AnCanceled.
 Definition an_pair := (option Z * an_err)%type.      (* (result, err); None = nil result *)
 
 Definition an_is_nil (e : an_err) : bool := match e with AnNil => true | _ => false end.
@@ -48,11 +61,12 @@ Definition an_beh_of (o : an_opts) (a : nat) : an_beh := nth (a - 1) (ao_behs o)
 
 (* a handler started at s with ctx deadline d: when it returns and what it returns.
    An ignoring handler sleeps dur; an honouring one waits for min(timer dur, ctx.Done()) and
-   returns (nil, ctx.Err()) when cancelled. *)
+   returns (nil, ctx.Err()) when cancelled; ce = ctx.Err() once ctx1 is done (DeadlineExceeded, or
+   Canceled when the parent context was cancelled before the deadline). *)
 Definition an_cut (b : an_beh) (s d : Z) : bool := ab_honours b && (d <? s + ab_dur b).
 Definition an_due (b : an_beh) (s d : Z) : Z := if an_cut b s d then Z.max s d else s + ab_dur b.
-Definition an_hpair (b : an_beh) (s d : Z) : an_pair :=
-  if an_cut b s d then (None, AnDeadline) else (ab_val b, ab_err b).
+Definition an_hpair (ce : an_err) (b : an_beh) (s d : Z) : an_pair :=
+  if an_cut b s d then (None, ce) else (ab_val b, ab_err b).
 
 Inductive an_phase :=
 | AnUnsent
@@ -138,7 +152,7 @@ Definition at_set_get2 (t : an_task) (x : list (an_pair * Z)) : an_task :=
      at_sent := at_sent t; at_pickup := at_pickup t; at_blocked := at_blocked t; at_late := at_late t; at_inv := at_inv t;
      at_ret := at_ret t; at_dec := at_dec t; at_onerr := at_onerr t; at_rel := at_rel t; at_get2 := x |}.
 
-(* inner callback waiting in innerCallbackChan: task, attempt, ctx1 deadline *)
+(* inner callback waiting in innerCallbackChan: task, attempt, instant at which its ctx1 is done *)
 Definition an_cb := (nat * nat * Z)%type.
 
 (* a busy inner worker *)
@@ -155,14 +169,15 @@ Record an_state := {
   an_active : list nat;           (* tasks a dispatcher is running *)
   an_ichan : list an_cb;          (* innerCallbackChan buffer (capacity N) *)
   an_workers : list an_slot;      (* busy inner workers *)
-  an_maxrun : nat                 (* ghost: maximum number of simultaneously running handlers *)
+  an_maxrun : nat;                (* ghost: maximum number of simultaneously running handlers *)
+  an_pc : option Z                (* the dispatchers' parent context was cancelled at this instant *)
 }.
 
 Record an_cfg := { an_N : nat; an_pub : an_publish; an_urg : bool }.
 
 Definition an_init : an_state :=
   {| an_now := 0; an_next := 0; an_tk := fun _ => an_task0; an_tchan := []; an_sendq := [];
-     an_active := []; an_ichan := []; an_workers := []; an_maxrun := 0 |}.
+     an_active := []; an_ichan := []; an_workers := []; an_maxrun := 0; an_pc := None |}.
 
 Inductive an_event :=
 | AnSend (o : an_opts)
@@ -173,7 +188,8 @@ Inductive an_event :=
 | AnPublish (k a : nat)
 | AnDecide (k : nat) (viaDone : bool)
 | AnGet2 (k : nat)
-| AnAdvance (dt : Z).
+| AnAdvance (dt : Z)
+| AnParentCancel.
 
 Definition an_upd (f : nat -> an_task) (k : nat) (t : an_task) : nat -> an_task :=
   fun j => if Nat.eqb j k then t else f j.
@@ -181,7 +197,7 @@ Definition an_upd (f : nat -> an_task) (k : nat) (t : an_task) : nat -> an_task 
 Definition an_with_task (s : an_state) (k : nat) (t : an_task) : an_state :=
   {| an_now := an_now s; an_next := an_next s; an_tk := an_upd (an_tk s) k t;
      an_tchan := an_tchan s; an_sendq := an_sendq s; an_active := an_active s;
-     an_ichan := an_ichan s; an_workers := an_workers s; an_maxrun := an_maxrun s |}.
+     an_ichan := an_ichan s; an_workers := an_workers s; an_maxrun := an_maxrun s; an_pc := an_pc s |}.
 
 Definition an_is_run (k a : nat) (sl : an_slot) : bool :=
   match sl with AnRun k' a' _ _ _ => Nat.eqb k' k && Nat.eqb a' a | _ => false end.
@@ -214,7 +230,7 @@ Definition an_release (s : an_state) (k : nat) (t : an_task) : an_state :=
   let t' := at_set_rel (at_set_phase t AnDone) (an_now s :: at_rel t) in
   {| an_now := an_now s; an_next := an_next s; an_tk := an_upd (an_tk s) k t';
      an_tchan := an_tchan s; an_sendq := an_sendq s; an_active := an_remove k (an_active s);
-     an_ichan := an_ichan s; an_workers := an_workers s; an_maxrun := an_maxrun s |}.
+     an_ichan := an_ichan s; an_workers := an_workers s; an_maxrun := an_maxrun s; an_pc := an_pc s |}.
 
 (* run(): after runTaskOnce of attempt a left f in result/err:
    if err == nil return; else next attempt while a < retry; else onError(err); deferred wg.Done *)
@@ -225,6 +241,25 @@ Definition an_after (s : an_state) (k a : nat) (f : an_pair) : an_state :=
   else if Nat.ltb a (ao_R (at_opts t)) then an_with_task s k (at_set_phase t (AnEnq (S a) (an_now s)))
   else an_release s k (if ao_onerr (at_opts t) then at_set_onerr t ((snd f, an_now s) :: at_onerr t) else t).
 
+(* the instant at which a ctx1 with timer deadline d is done; ctx1.Err() from then on *)
+Definition an_dl (s : an_state) (d : Z) : Z :=
+  match an_pc s with Some q => Z.min q d | None => d end.
+Definition an_cerr (s : an_state) (d : Z) : an_err :=
+  match an_pc s with Some q => if q <=? d then AnCanceled else AnDeadline | None => AnDeadline end.
+
+(* cancel(): every existing ctx1 is done now; an honouring handler that is still waiting returns
+   (nil, context.Canceled) now *)
+Definition an_cancel_cb (now : Z) (cb : an_cb) : an_cb :=
+  match cb with (k, a, d) => (k, a, Z.min d now) end.
+Definition an_cancel_slot (tk : nat -> an_task) (now : Z) (sl : an_slot) : an_slot :=
+  match sl with
+  | AnRun k a d r p =>
+      if ab_honours (an_beh_of (at_opts (tk k)) a) && (now <? r)
+      then AnRun k a (Z.min d now) now (None, AnCanceled)
+      else AnRun k a (Z.min d now) r p
+  | AnPub _ _ _ _ => sl
+  end.
+
 (* maximal progress: may the clock advance by dt > 0 ? *)
 Definition an_slot_quiet (lim : Z) (sl : an_slot) : bool :=
   match sl with AnRun _ _ _ r _ => lim <=? r | AnPub _ _ _ _ => false end.
@@ -232,7 +267,7 @@ Definition an_task_quiet (cfg : an_cfg) (s : an_state) (lim : Z) (k : nat) : boo
   let t := an_tk s k in
   match at_phase t with
   | AnEnq _ _ => Nat.leb (an_N cfg) (length (an_ichan s))
-  | AnWait a c => (lim <=? c + ao_T (at_opts t)) && match an_chan_find a (at_chan t) with None => true | Some _ => false end
+  | AnWait a c => (lim <=? an_dl s (c + ao_T (at_opts t))) && match an_chan_find a (at_chan t) with None => true | Some _ => false end
   | _ => true
   end.
 Definition an_quiet (cfg : an_cfg) (s : an_state) (dt : Z) : bool :=
@@ -247,9 +282,13 @@ Definition an_new_task (o : an_opts) (now : Z) (ph : an_phase) : an_task :=
      at_sent := now; at_pickup := 0; at_blocked := 0; at_late := 0; at_inv := []; at_ret := []; at_dec := [];
      at_onerr := []; at_rel := []; at_get2 := [] |}.
 
+(* the callback's select { case <-ctx1.Done(): | default: }: before the done-instant d of ctx1 it takes
+   default, after it the Done branch, exactly at it either; once the dispatcher has left runTaskOnce
+   (deferred cancel()) or the parent context has been cancelled, ctx1 is done *)
 Definition an_saw_ok (s : an_state) (k a : nat) (d : Z) (saw : bool) : bool :=
   (if an_now s <? d then negb saw else if d <? an_now s then saw else true)
-  && (if an_decided (an_tk s k) a then saw else true).
+  && (if an_decided (an_tk s k) a then saw else true)
+  && (match an_pc s with Some _ => saw | None => true end).
 
 Definition an_step (cfg : an_cfg) (s : an_state) (e : an_event) : option an_state :=
   match e with
@@ -263,17 +302,17 @@ Definition an_step (cfg : an_cfg) (s : an_state) (e : an_event) : option an_stat
           let t := if ao_onerr o then at_set_onerr t [(AnDiscard, an_now s)] else t in
           Some {| an_now := an_now s; an_next := S k; an_tk := an_upd (an_tk s) k t;
                   an_tchan := an_tchan s; an_sendq := an_sendq s; an_active := an_active s;
-                  an_ichan := an_ichan s; an_workers := an_workers s; an_maxrun := an_maxrun s |}
+                  an_ichan := an_ichan s; an_workers := an_workers s; an_maxrun := an_maxrun s; an_pc := an_pc s |}
         else
           let t := an_new_task o (an_now s) AnQueued in
           if Nat.ltb (length (an_tchan s)) (an_N cfg) then
             Some {| an_now := an_now s; an_next := S k; an_tk := an_upd (an_tk s) k t;
                     an_tchan := an_tchan s ++ [k]; an_sendq := an_sendq s; an_active := an_active s;
-                    an_ichan := an_ichan s; an_workers := an_workers s; an_maxrun := an_maxrun s |}
+                    an_ichan := an_ichan s; an_workers := an_workers s; an_maxrun := an_maxrun s; an_pc := an_pc s |}
           else
             Some {| an_now := an_now s; an_next := S k; an_tk := an_upd (an_tk s) k t;
                     an_tchan := an_tchan s; an_sendq := an_sendq s ++ [k]; an_active := an_active s;
-                    an_ichan := an_ichan s; an_workers := an_workers s; an_maxrun := an_maxrun s |}
+                    an_ichan := an_ichan s; an_workers := an_workers s; an_maxrun := an_maxrun s; an_pc := an_pc s |}
       else None
   | AnPick k =>
       (* goDispatchTask: task := <-taskChan; task.run(ctx): first runTaskOnce creates ctx1 *)
@@ -285,7 +324,7 @@ Definition an_step (cfg : an_cfg) (s : an_state) (e : an_event) : option an_stat
             Some {| an_now := an_now s; an_next := an_next s; an_tk := an_upd (an_tk s) k t;
                     an_tchan := rest ++ firstn 1 (an_sendq s); an_sendq := skipn 1 (an_sendq s);
                     an_active := k :: an_active s;
-                    an_ichan := an_ichan s; an_workers := an_workers s; an_maxrun := an_maxrun s |}
+                    an_ichan := an_ichan s; an_workers := an_workers s; an_maxrun := an_maxrun s; an_pc := an_pc s |}
           else None
       | [] => None
       end
@@ -299,8 +338,8 @@ Definition an_step (cfg : an_cfg) (s : an_state) (e : an_event) : option an_stat
                                  (at_late t + Z.max 0 (an_now s - (c + ao_T (at_opts t)))) in
             Some {| an_now := an_now s; an_next := an_next s; an_tk := an_upd (an_tk s) k t;
                     an_tchan := an_tchan s; an_sendq := an_sendq s; an_active := an_active s;
-                    an_ichan := an_ichan s ++ [(k, a, c + ao_T (at_opts t))];
-                    an_workers := an_workers s; an_maxrun := an_maxrun s |}
+                    an_ichan := an_ichan s ++ [(k, a, an_dl s (c + ao_T (at_opts t)))];
+                    an_workers := an_workers s; an_maxrun := an_maxrun s; an_pc := an_pc s |}
           else None
       | _ => None
       end
@@ -311,11 +350,11 @@ Definition an_step (cfg : an_cfg) (s : an_state) (e : an_event) : option an_stat
           if Nat.eqb k' k && Nat.eqb a' a && Nat.ltb (length (an_workers s)) (an_N cfg) then
             let t := an_tk s k in
             let b := an_beh_of (at_opts t) a in
-            let ws := AnRun k a d (an_due b (an_now s) d) (an_hpair b (an_now s) d) :: an_workers s in
+            let ws := AnRun k a d (an_due b (an_now s) d) (an_hpair (an_cerr s d) b (an_now s) d) :: an_workers s in
             Some {| an_now := an_now s; an_next := an_next s;
                     an_tk := an_upd (an_tk s) k (at_set_inv t ((a, an_now s) :: at_inv t));
                     an_tchan := an_tchan s; an_sendq := an_sendq s; an_active := an_active s;
-                    an_ichan := rest; an_workers := ws; an_maxrun := Nat.max (an_maxrun s) (an_nrun ws) |}
+                    an_ichan := rest; an_workers := ws; an_maxrun := Nat.max (an_maxrun s) (an_nrun ws); an_pc := an_pc s |}
           else None
       | [] => None
       end
@@ -328,7 +367,7 @@ Definition an_step (cfg : an_cfg) (s : an_state) (e : an_event) : option an_stat
             Some {| an_now := an_now s; an_next := an_next s;
                     an_tk := an_upd (an_tk s) k (at_set_ret t ((a, p, saw, an_now s, d) :: at_ret t));
                     an_tchan := an_tchan s; an_sendq := an_sendq s; an_active := an_active s;
-                    an_ichan := an_ichan s; an_workers := AnPub k a saw p :: rest; an_maxrun := an_maxrun s |}
+                    an_ichan := an_ichan s; an_workers := AnPub k a saw p :: rest; an_maxrun := an_maxrun s; an_pc := an_pc s |}
           else None
       | _ => None
       end
@@ -344,11 +383,12 @@ Definition an_step (cfg : an_cfg) (s : an_state) (e : an_event) : option an_stat
                    end in
           Some {| an_now := an_now s; an_next := an_next s; an_tk := an_upd (an_tk s) k t;
                   an_tchan := an_tchan s; an_sendq := an_sendq s; an_active := an_active s;
-                  an_ichan := an_ichan s; an_workers := rest; an_maxrun := an_maxrun s |}
+                  an_ichan := an_ichan s; an_workers := rest; an_maxrun := an_maxrun s; an_pc := an_pc s |}
       | _ => None
       end
   | AnDecide k viaDone =>
-      (* runTaskOnce: select { case r := <-doneChan: | case <-ctx1.Done(): }, then run()'s loop *)
+      (* runTaskOnce: select { case r := <-doneChan: | case <-ctx1.Done(): }, then run()'s loop;
+         the ctx1.Done() branch stores (nil, context.DeadlineExceeded) also when ctx1.Err() is Canceled *)
       let t := an_tk s k in
       match at_phase t with
       | AnWait a c =>
@@ -357,7 +397,7 @@ Definition an_step (cfg : an_cfg) (s : an_state) (e : an_event) : option an_stat
             | Some p => Some (an_after s k a (match an_pub cfg with AnAttemptChannel => p | AnSharedFields => at_fields t end))
             | None => None
             end
-          else if c + ao_T (at_opts t) <=? an_now s then Some (an_after s k a (None, AnDeadline))
+          else if an_dl s (c + ao_T (at_opts t)) <=? an_now s then Some (an_after s k a (None, AnDeadline))
           else None
       | _ => None
       end
@@ -372,8 +412,19 @@ Definition an_step (cfg : an_cfg) (s : an_state) (e : an_event) : option an_stat
       if (0 <=? dt) && (negb (an_urg cfg) || (dt =? 0) || an_quiet cfg s dt) then
         Some {| an_now := an_now s + dt; an_next := an_next s; an_tk := an_tk s;
                 an_tchan := an_tchan s; an_sendq := an_sendq s; an_active := an_active s;
-                an_ichan := an_ichan s; an_workers := an_workers s; an_maxrun := an_maxrun s |}
+                an_ichan := an_ichan s; an_workers := an_workers s; an_maxrun := an_maxrun s; an_pc := an_pc s |}
       else None
+  | AnParentCancel =>
+      (* cancel() of the dispatchers' parent context (a second call is a no-op) *)
+      match an_pc s with
+      | Some _ => Some s
+      | None =>
+          Some {| an_now := an_now s; an_next := an_next s; an_tk := an_tk s;
+                  an_tchan := an_tchan s; an_sendq := an_sendq s; an_active := an_active s;
+                  an_ichan := map (an_cancel_cb (an_now s)) (an_ichan s);
+                  an_workers := map (an_cancel_slot (an_tk s) (an_now s)) (an_workers s);
+                  an_maxrun := an_maxrun s; an_pc := Some (an_now s) |}
+      end
   end.
 
 Fixpoint an_run (cfg : an_cfg) (s : an_state) (evs : list an_event) : option an_state :=
